@@ -125,6 +125,9 @@ MsgVals(M, deep, small) ==
 \* to): every leaf null / unknown / known zero / known non-zero; containers null / unknown / empty / filled.
 \* raw = TRUE additionally yields hand-built values carrying a payload under null / unknown.
 
+\* null / unknown objects as the framework decodes them: no Attrs map
+DecodedForm(tv) == IF tv.k = "obj" /\ ~Known(tv) THEN [tv EXCEPT !.attrs = EmptyFn, !.attrsnil = TRUE] ELSE tv
+
 PrimPlans(ty, cls, raw) ==
   {VPrim(ty, TRUE, FALSE, ZeroOfTf(ty)), VPrim(ty, FALSE, TRUE, ZeroOfTf(ty)),
    VPrim(ty, FALSE, FALSE, ZeroOfTf(ty)), VPrim(ty, FALSE, FALSE, NonZeroA(cls))}
@@ -148,12 +151,16 @@ FieldPlans(F, raw, small) ==
        [] F.kind = "custom" -> {VPrim("string", TRUE, FALSE, "")}
        [] F.kind \in {"primlist", "objlist"} ->
             {VList(TRUE, FALSE, <<>>, ett, TRUE), VList(FALSE, FALSE, <<ab[1]>>, ett, FALSE)}
-            \cup (IF small THEN {} ELSE {VList(FALSE, TRUE, <<>>, ett, TRUE), VList(FALSE, FALSE, <<>>, ett, FALSE), VList(FALSE, FALSE, <<ab[1], ab[2]>>, ett, FALSE)})
+            \cup (IF small THEN {} ELSE {VList(FALSE, TRUE, <<>>, ett, TRUE), VList(FALSE, FALSE, <<>>, ett, FALSE), VList(FALSE, FALSE, <<ab[1], ab[2]>>, ett, FALSE),
+                                          \* null / unknown ELEMENTS after (and between) known ones
+                                          VList(FALSE, FALSE, <<ab[1], DecodedForm(NullOf(ett))>>, ett, FALSE),
+                                          VList(FALSE, FALSE, <<ab[1], [DecodedForm(NullOf(ett)) EXCEPT !.null = FALSE, !.unk = TRUE], ab[1]>>, ett, FALSE)})
             \cup (IF raw /\ ~small THEN {VList(TRUE, FALSE, <<ab[1], ab[2]>>, ett, FALSE), VList(FALSE, TRUE, <<ab[1]>>, ett, FALSE)} ELSE {})
        [] F.kind \in {"primmap", "objmap"} ->
             {VMap(TRUE, FALSE, EmptyFn, ett, TRUE), VMap(FALSE, FALSE, [key \in {"k1"} |-> ab[1]], ett, FALSE)}
             \cup (IF small THEN {} ELSE {VMap(FALSE, TRUE, EmptyFn, ett, TRUE), VMap(FALSE, FALSE, EmptyFn, ett, FALSE),
-                                          VMap(FALSE, FALSE, [key \in {"k1", "k2"} |-> IF key = "k1" THEN ab[2] ELSE ab[1]], ett, FALSE)})
+                                          VMap(FALSE, FALSE, [key \in {"k1", "k2"} |-> IF key = "k1" THEN ab[2] ELSE ab[1]], ett, FALSE),
+                                          VMap(FALSE, FALSE, [key \in {"k1", "k2", "k3"} |-> IF key = "k2" THEN DecodedForm(NullOf(ett)) ELSE ab[1]], ett, FALSE)})
             \cup (IF raw /\ ~small THEN {VMap(TRUE, FALSE, [key \in {"k1"} |-> ab[1]], ett, FALSE)} ELSE {})
        [] OTHER -> \* obj
             LET S == MsgPlans(SubOf(F), raw /\ ~small, small)
@@ -186,9 +193,6 @@ MsgPlans(M, raw, small) ==
               \cup UNION {{[b EXCEPT ![M.fields[i].attr] = v] : b \in {nullBase, knownBase}, v \in FieldPlans(M.fields[i], raw, sm)} : i \in DOMAIN M.fields}
   IN IF wide THEN {VObj(FALSE, FALSE, attrs, M.tt.at, FALSE) : attrs \in diag}
      ELSE {VObj(FALSE, FALSE, attrs, M.tt.at, FALSE) : attrs \in PlanProduct(M, 1, {base}, raw, small)}
-
-\* null / unknown objects as the framework decodes them: no Attrs map
-DecodedForm(tv) == IF tv.k = "obj" /\ ~Known(tv) THEN [tv EXCEPT !.attrs = EmptyFn, !.attrsnil = TRUE] ELSE tv
 
 \* ------------------------------------------------------------------------
 \* prior contents of a target struct (C05): zero, and values with every unit set
